@@ -331,6 +331,10 @@ class SMUserList(UserList, ABC):
             raise TypeError("can't concatenate objects of different classes")
         return super().__add__(other)
 
+    def __radd__(self, other):
+        # plain list + object would concatenate the list with the internal data
+        raise TypeError("can't concatenate a list and a " + type(self).__name__)
+
     # flag these binary operators as being not supported
     def __lt__(self, other):
         return NotImplementedError
